@@ -85,7 +85,9 @@ class ScriptedBackend:
         self.kinds.append("repeat" if outputFile is not None else "plain")
         if self.on_launch is not None:
             self.on_launch(ref, job, n, reason)
-        if reason == "SubmissionFailed":
+        if reason == "SubmissionFailed" and not getattr(self, "submission_failure_as_exit", False):
+            # (with the flag: the backend accepts the task and reports the failed submission as its exit reason, the
+            # way the LSF / Kubernetes backends do)
             raise experiment.runtime.errors.JobLaunchError("scripted submission failure of %s" % ref, OSError("scripted"))
         try:
             with open(os.path.join(job.workingDirectory.path, "out.stdout"), "a") as f:
